@@ -124,6 +124,23 @@ CLAIMS = {
    note="Not decided: the numeric sharpness/roundness/flux measurements.",
    technique="normal forms + sibling agreement + comparison-set extraction + axis tags (AST)",
    design="4 C14"),
+ 'C16': dict(
+   text="Pixel-set plumbing decided structurally: sum-method properties never read centre-method masks (T-FAMILY), each cutout consumer "
+        "takes the slot its name says (T-SLOT), mask/weight/variance construction statements in normal form with the aperture weights applied "
+        "after the sigma clip (SPEC/ORDER), local background subtracted once on a float copy, masked pixels zeroed for the moments, centroid "
+        "re-based with the clipped-cutout origin (T-FRAME), no state carried between positions (LP1/LP1b), A1.",
+   note="Not decided: the statistics themselves. Two genuine defects found by these rules were fixed (sum_aper_area NaN, centroid origin).",
+   technique="family/slot tag systems + normal forms + statement-order rule + loop-carried dependence (AST)",
+   design="4 C16"),
+ 'C07': dict(
+   text="Definitions decided as structure: total mask = other labels | input mask | non-finite; flux/error/area/background sums over the "
+        "compressed values of the total-masked cutouts; completely masked = all of the TOTAL mask; segment_area counts `== label` (SPEC normal "
+        "forms); every cutout-relative index/centroid re-based with the slice origin of the matching axis (T-FRAME); x/y and min/max twin "
+        "properties carry the same decorators (detection-catalog delegation) and mirrored bodies (SIBDECOR/MIRROR); row independence of every "
+        "per-source loop (LP1/LP1b); x/y pairing incl. external coordinate-order models (T-AXIS); A1.",
+   note="Not decided: numeric shape/Kron formulas. One genuine defect found by T-AXIS was fixed (background_centroid sampled at (x, y)).",
+   technique="normal forms + frame/axis tag systems + sibling agreement + loop-carried dependence (AST)",
+   design="4 C07"),
 }
 
 fix_commits = subprocess.run(['git', '-C', '/repo', 'log', '--format=%h %s', '8203d59..HEAD'],
